@@ -1,3 +1,4 @@
+mod build;
 mod fakecli;
 mod frame;
 mod memtransport;
@@ -32,6 +33,7 @@ fn main() {
     }
     match op.as_str() {
         "frame" => frame::main(&opts),
+        "build" => build::main(&opts),
         _ => {
             eprintln!("unknown op {op}");
             std::process::exit(2);
